@@ -19,7 +19,27 @@ def is_exact(d):
     return not d.get("y") and not d.get("mo")
 
 
+_PARSE_ALL = TimeRecurrenceParser(TimePointParser(num_expanded_year_digits=2, assumed_time_zone=(0, 0)), DurationParser())
+
+
+def rec_text(desc):
+    from harness import render
+    head = "R%s/" % (desc["n"] or "")
+    if desc["fmt"] == 1:
+        return head + render.tp_record_text(desc["a"]) + "/" + render.tp_record_text(desc["s"])
+    if desc["fmt"] == 3:
+        return head + render.tp_record_text(desc["a"]) + "/" + render.dur_desc_text(desc["d"])
+    return head + render.dur_desc_text(desc["d"]) + "/" + render.tp_record_text(desc["a"])
+
+
+def parseable(desc):
+    pts = [desc["a"]] + ([desc["s"]] if desc["fmt"] == 1 else [])
+    return all(p["prec"] == "hms" and p["hh"] < 24 and p.get("xd", 0) in (0, 2) and len(p.get("dec") or "") <= 6 for p in pts)
+
+
 def build(desc):
+    if desc.get("via") == "parse":        # one parser object for the whole process, across calendar-mode switches
+        return _PARSE_ALL.parse(rec_text(desc))
     n = desc["n"] or None
     a = mk_tp(desc["a"])
     if desc["fmt"] == 1:
